@@ -59,6 +59,8 @@ pub fn run_line(line: &str, scratch: &str) -> String {
         "reads" => by_width!(c, op_reads, scratch),
         "skfaults" => by_width!(c, op_skfaults, scratch),
         "skchunks" => by_width!(c, op_skchunks, scratch),
+        "snapblock" => op_snapblock(c),
+        "names" => op_names(c),
         "build2" => by_width!(c, op_build2, scratch),
         "map" => by_width!(c, op_map, scratch),
         "alnw" => op_alnw(c),
@@ -835,6 +837,65 @@ fn op_skchunks<IntT: for<'a> UInt<'a>>(c: &Case, scratch: &str) -> String {
         different,
         join(&diffs)
     )
+}
+
+fn unhex_bytes(s: &str) -> Vec<u8> {
+    if s == "." {
+        return Vec::new();
+    }
+    (0..s.len() / 2).map(|i| u8::from_str_radix(&s[2 * i..2 * i + 2], 16).unwrap()).collect()
+}
+
+/// C09, compression layer: one raw Snappy block as `snap` (the compressor behind
+/// `MergeSkaArray::save`) writes it for `data`, what `snap`'s block decoder makes
+/// of it, and of truncated / bit-flipped copies (tags `tN`, `fI.B` as in skfaults).
+fn op_snapblock(c: &Case) -> String {
+    let data = unhex_bytes(c.get("data"));
+    let block = snap::raw::Encoder::new().compress_vec(&data).unwrap();
+    let dec = |b: &[u8]| -> String {
+        // the frame decoder hands the block decoder a 64 KiB output buffer
+        let mut out = vec![0u8; 65536];
+        match snap::raw::Decoder::new().decompress(b, &mut out) {
+            Ok(n) => format!("ok{}", crc_simple(&out[..n])),
+            Err(_) => "err".to_string(),
+        }
+    };
+    let mut muts: Vec<String> = Vec::new();
+    for tag in c.list("faults") {
+        let mut b = block.clone();
+        if let Some(n) = tag.strip_prefix('t') {
+            b.truncate(n.parse::<usize>().unwrap());
+        } else if let Some(rest) = tag.strip_prefix('f') {
+            let (i, bit) = rest.split_once('.').unwrap();
+            let i: usize = i.parse().unwrap();
+            if i < b.len() {
+                b[i] ^= 1 << bit.parse::<u32>().unwrap();
+            }
+        }
+        muts.push(format!("{tag}:{}", dec(&b)));
+    }
+    format!("block={} dec={} want=ok{} muts={}", hex(&block), dec(&block), crc_simple(&data), join(&muts))
+}
+
+/// sample names of file arguments (`io_utils::read_input_fastas`); arguments and
+/// names travel as hex of their UTF-8 bytes
+fn op_names(c: &Case) -> String {
+    let files: Vec<String> = c
+        .list("files")
+        .iter()
+        .map(|h| String::from_utf8(unhex_bytes(if h.is_empty() { "." } else { h })).unwrap())
+        .collect();
+    let res = ska::io_utils::read_input_fastas(&files);
+    let names: Vec<String> = res
+        .iter()
+        .zip(files.iter())
+        .map(|((name, path, second), f)| {
+            // the path handed on must be the argument itself, and no second file
+            let tag = if path == f && second.is_none() { "" } else { "!" };
+            format!("{tag}{}", hex(name.as_bytes()))
+        })
+        .collect();
+    join(&names)
 }
 
 /// a simple order-sensitive checksum of a byte string (to compare decoder outputs)
